@@ -274,6 +274,60 @@ type c06Op struct {
 	NKeys     int    `json:"nkeys"`
 	FgFail    []bool `json:"fg_fail"`    // per key group (see kinds): does the foreground delete fail
 	FailFirst []int  `json:"fail_first"` // per key group: number of failing background attempts
+	// Ctx is the context handed to DelCtx (redis kinds): "" = context.Background();
+	// cancel-after / deadline-after = a live request context that is cancelled / passes its
+	// deadline right after DelCtx returned (the normal fate of a request context);
+	// canceled-before / expired-before = the context is already done when DelCtx is called,
+	// so the foreground delete fails in the client without reaching redis.
+	Ctx string `json:"ctx,omitempty"`
+}
+
+// c06Ctx is a request context whose end the harness decides (no wall clock involved).
+type c06Ctx struct {
+	mu   sync.Mutex
+	done chan struct{}
+	err  error
+}
+
+func newC06Ctx() *c06Ctx { return &c06Ctx{done: make(chan struct{})} }
+
+func (c *c06Ctx) Deadline() (time.Time, bool) { return time.Time{}, false }
+func (c *c06Ctx) Done() <-chan struct{}       { return c.done }
+func (c *c06Ctx) Value(any) any               { return nil }
+func (c *c06Ctx) Err() error {
+	c.mu.Lock()
+	defer c.mu.Unlock()
+	return c.err
+}
+
+func (c *c06Ctx) finish(err error) {
+	c.mu.Lock()
+	if c.err == nil {
+		c.err = err
+		close(c.done)
+	}
+	c.mu.Unlock()
+}
+
+// c06OpCtx returns the context for the foreground call and what to do after it returned.
+func c06OpCtx(mode string) (ctx context.Context, after func(), doneBefore bool) {
+	switch mode {
+	case "cancel-after":
+		c, cancel := context.WithCancel(context.Background())
+		return c, cancel, false
+	case "deadline-after":
+		c := newC06Ctx()
+		return c, func() { c.finish(context.DeadlineExceeded) }, false
+	case "canceled-before":
+		c, cancel := context.WithCancel(context.Background())
+		cancel()
+		return c, func() {}, true
+	case "expired-before":
+		c := newC06Ctx()
+		c.finish(context.DeadlineExceeded)
+		return c, func() {}, true
+	}
+	return context.Background(), func() {}, false
 }
 
 type c06Scenario struct {
@@ -338,6 +392,10 @@ func (x *c06Run) issue(op c06Op) (ok bool) {
 	prefix := fmt.Sprintf("c06:%s:%d:%d", x.name, x.rep, id)
 	now := atomic.LoadInt64(&r.tick)
 	var created []*c06Unit
+	ctx, afterCall, ctxDoneBefore := c06OpCtx(op.Ctx)
+	if op.Ctx != "" {
+		x.stats["ctx_"+op.Ctx]++
+	}
 	mk := func(kind string, keys []string, g int) *c06Unit {
 		p := &c06Plan{id: fmt.Sprintf("%s#%d", prefix, g), kind: kind, keys: keys}
 		if g < len(op.FgFail) {
@@ -395,9 +453,10 @@ func (x *c06Run) issue(op c06Op) (ok bool) {
 				mr.Set(k, "stale")
 			}
 		}
-		if err := n.DelCtx(context.Background(), keys...); err != nil {
+		if err := n.DelCtx(ctx, keys...); err != nil {
 			x.stats["del_returned_error"]++ // not claimed either way by the statement: counted only
 		}
+		afterCall()
 	case "cluster":
 		var conf Config
 		for _, mr := range r.mrs {
@@ -436,15 +495,35 @@ func (x *c06Run) issue(op c06Op) (ok bool) {
 			}
 			x.stats[fmt.Sprintf("cluster_keys_on_node%d", i)] += int64(len(ks))
 		}
-		if err := c.DelCtx(context.Background(), keys...); err != nil {
+		if err := c.DelCtx(ctx, keys...); err != nil {
 			x.stats["del_returned_error"]++
 		}
+		afterCall()
 	}
 	// foreground observations
 	for _, ev := range r.takeEvents() {
 		x.observe(ev)
 	}
 	for _, u := range created {
+		if !u.fgSeen && ctxDoneBefore && u.mr != nil {
+			// the request context was already done: the client refused the delete before it
+			// reached redis. DelCtx returned and the keys are still cached => the removal
+			// failed and retries are owed from now on.
+			still := true
+			for _, k := range u.plan.keys {
+				if !u.mr.Exists(k) {
+					still = false
+				}
+			}
+			if still {
+				r.mu.Lock()
+				u.plan.seen = 1
+				r.mu.Unlock()
+				u.fgSeen, u.active, u.last = true, true, now
+				x.stats["fg_failed_ctx_done"]++
+				continue
+			}
+		}
 		if !u.fgSeen {
 			// the foreground DEL of this group never reached miniredis
 			x.m.Inconclusive("%s: foreground DEL of %v not observed at miniredis", x.desc, u.plan.keys)
@@ -561,7 +640,7 @@ func (x *c06Run) deadlines(now int64) (settled bool) {
 					after = fmt.Sprintf("failed-attempt%d", u.n)
 				}
 				x.violate("C06:retry:failed-delete-not-retried:after-"+after,
-					"unit %s kind=%s keys=%v failFirst=%d: delete failed at tick %d (%d background attempts so far, all failed); next attempt was due %d s later but none happened within %d s",
+					"unit %s kind=%s keys=%v failFirst=%d: delete failed at tick %d (%d background attempts so far, all failed); next attempt was due %d s later but no delete attempt was observed (at redis / in the injected task) within %d s",
 					u.plan.id, u.plan.kind, u.plan.keys, u.plan.failFirst, u.last, u.n, c06Delays[u.n+1], c06NotRetriedTicks)
 			} else {
 				settled = false
@@ -653,7 +732,7 @@ func c06Flush(m *vk.M, agg map[string]int64) {
 // TestVerifC06RetrySystematic: the complete fault table "first j background attempts
 // fail" (j = 0..5) for every delete path, one failed delete per scenario.
 func TestVerifC06RetrySystematic(t *testing.T) {
-	m := vk.New(t, "C06", "retry: for each delete path (task injected through AddCleanTask; node.DelCtx; node.DelCtx on a cluster-type redis = per-key deletes; 3-node cluster.DelCtx) x j=0..5 failing background attempts: after the failed foreground delete, background attempts must come exactly 1s,5s,1m,5m,1h after the previous failure, stop at the first success, never exceed 5, never re-run after success; observed tick by tick on the real cleaner wheel (fake ticker) until 1h+ of silence")
+	m := vk.New(t, "C06", "retry: for each delete path (task injected through AddCleanTask; node.DelCtx; node.DelCtx on a cluster-type redis = per-key deletes; 3-node cluster.DelCtx) x j=0..5 failing background attempts, and for the redis paths x request context {cancelled / deadline passed right after DelCtx returned, already cancelled / expired before the call}: after the failed foreground delete, background attempts must come exactly 1s,5s,1m,5m,1h after the previous failure, stop at the first success, never exceed 5, never re-run after success; observed tick by tick on the real cleaner wheel (fake ticker) until 1h+ of silence")
 	defer m.Done()
 	rig, err := c06GetRig()
 	if err != nil {
@@ -696,7 +775,44 @@ func TestVerifC06RetrySystematic(t *testing.T) {
 			m.Progress()
 		}
 	}
-	m.Extra("exhaustive_family", "4 delete paths x j=0..5")
+	// request-context family: the context given to DelCtx ends right after the call (or was
+	// already done), as a request context does; the retries must still reach redis on schedule
+	// and the first successful one must remove the keys.
+	for _, kind := range []string{"node", "clustertype", "cluster"} {
+		for _, mode := range []string{"cancel-after", "deadline-after", "canceled-before", "expired-before"} {
+			for j := 0; j <= 5; j++ {
+				idx++
+				if !m.Only(idx) {
+					continue
+				}
+				before := strings.HasSuffix(mode, "-before")
+				op := c06Op{Kind: kind, NKeys: 1 + j%3, Ctx: mode, FgFail: []bool{true}, FailFirst: []int{j}}
+				switch kind {
+				case "clustertype":
+					if before { // every key fails in the client: keep the shared breaker below its protection
+						op.NKeys, op.FgFail, op.FailFirst = 2, []bool{true, true}, []int{j, 5 - j}
+					} else {
+						op.NKeys, op.FgFail, op.FailFirst = 3, []bool{true, false, true}, []int{j, 0, 5 - j}
+					}
+				case "cluster":
+					op.NKeys = 6
+					op.FgFail = []bool{true, j%2 == 0, true}
+					op.FailFirst = []int{j, (j + 2) % 6, (j + 4) % 6}
+				}
+				sc := c06Scenario{Name: fmt.Sprintf("%s/%s/j=%d", kind, mode, j), Ops: []c06Op{op}}
+				ok, stats := c06RunScenario(m, rig, idx, sc)
+				if !ok {
+					return
+				}
+				c06Finish(m, sc, stats, agg)
+				if m.WantSample() && j == 2 && kind == "node" {
+					m.Sample(map[string]any{"scenario": sc, "observed": stats})
+				}
+				m.Progress()
+			}
+		}
+	}
+	m.Extra("exhaustive_family", "4 delete paths x j=0..5, plus 3 redis paths x 4 request-context fates x j=0..5")
 }
 
 func c06RandomScenario(r interface{ Intn(int) int }, idx int) c06Scenario {
@@ -709,10 +825,16 @@ func c06RandomScenario(r interface{ Intn(int) int }, idx int) c06Scenario {
 		if sameTick {
 			op.Start = 0
 		}
+		if op.Kind != "direct" {
+			op.Ctx = []string{"", "", "cancel-after", "deadline-after", "canceled-before", "expired-before"}[r.Intn(6)]
+		}
 		groups := 1
 		switch op.Kind {
 		case "clustertype":
 			op.NKeys = 2 + r.Intn(3)
+			if strings.HasSuffix(op.Ctx, "-before") {
+				op.NKeys = 2 // all keys fail in the client: see the breaker note below
+			}
 			groups = op.NKeys
 		case "cluster":
 			op.NKeys = 3 + r.Intn(5)
